@@ -145,7 +145,11 @@ def run(ctx, report: Report) -> None:
                  'css_match._DocumentNav.is_navigable_string': lambda n: isinstance(n, str),
                  'css_match._DocumentNav.is_tag': lambda n: n is tag}
         try:
-            out = call_function(ctx, f'css_match.{q}', [Obj(_name='el')], {'no_iframe': no_iframe}, stubs,
+            # the element offers bs4's own text API too; using it bypasses the node-kind classification
+            el_ = Obj(_name='el', get_text=lambda *a_, **k_: '<bs4 Tag.get_text()>', text='<bs4 Tag.text>', string='<bs4 Tag.string>',
+                      strings=['<bs4 Tag.strings>'], stripped_strings=['<bs4 Tag.stripped_strings>'], contents=list(nodes),
+                      children=list(nodes), descendants=list(nodes))
+            out = call_function(ctx, f'css_match.{q}', [el_], {'no_iframe': no_iframe}, stubs,
                                 Obj(_cls='css_match.CSSMatch', _name='matcher'))
         except Raised as e:
             out = f'raises {e.exc_name}'
@@ -276,3 +280,8 @@ def run(ctx, report: Report) -> None:
         r5.violation('css_match.CSSMatch.match_empty whitespace', mmod.where(me),
                      'match_empty decides "only whitespace" with str.strip()/isspace() (Unicode whitespace incl. NBSP) instead of the '
                      'CSS whitespace regex: <td>&nbsp;</td> wrongly matches :empty')
+    from .sem import iframe_policy
+    from ..tables import el_obj
+    iframe_policy(ctx, r5, 'css_match.CSSMatch.match_empty', lambda: [el_obj('e')], lambda html, restrict: False,
+                  ':empty looks at the element\'s own children - an iframe element with children is not empty')
+
